@@ -1901,9 +1901,14 @@ func (r *Raft) becomeLeader() {
 // becomeFollower transitions this node to the follower state.
 func (r *Raft) becomeFollower(leaderID string, term uint64) {
 	r.state = Follower
+	// A vote is only valid for the term it was cast in. It must survive a
+	// transition to the follower state that does not change the term, otherwise
+	// this node could vote for two different candidates in the same term.
+	if term != r.currentTerm {
+		r.votedFor = ""
+	}
 	r.currentTerm = term
 	r.leaderID = leaderID
-	r.votedFor = ""
 	r.persistTermAndVote()
 	r.resetSnapshotFiles()
 
